@@ -1457,6 +1457,10 @@ class Interp:
         elif isinstance(target, ast.Subscript):
             base = self.eval(target.value, frame)
             key = self.eval_slice(target.slice, frame)
+            if isinstance(target.value, (ast.Name, ast.Attribute)):
+                # evaluating the key may have joined branches (states are copied at a join): the container is looked up again
+                # so that the store lands in the live object
+                base = self.eval(target.value, frame)
             if isinstance(key, sp.Integer):
                 key = int(key)
             stack = [base]
